@@ -257,6 +257,7 @@ type Built struct {
 	via     bool
 	presets bool
 	aliases []sliceAlias
+	late    []func() error // deferred AddGroup calls (see buildWith)
 }
 
 // sliceAlias: a second reference to the backing array of a preset slice, and what it must keep showing
@@ -546,11 +547,26 @@ func (b *Built) preset(o *OptNode, f reflect.Value) {
 	}
 }
 
+// AttachLate adds the deferred top-level groups to the parser (Parser.AddGroup on a parser that has already parsed).
+func (b *Built) AttachLate() {
+	for _, f := range b.late {
+		if err := f(); err != nil && b.err == nil {
+			b.err = err
+		}
+	}
+	b.late = nil
+}
+
 // Build realises the tree.  Setup errors are recorded in b.err.
 func Build(t *Tree, popts flags.Options) *Built { return BuildOpt(t, popts, true) }
 
 // BuildOpt: presets=false leaves every field at its zero value (a fresh parser over the same declaration).
 func BuildOpt(t *Tree, popts flags.Options, presets bool) (b *Built) {
+	return buildWith(t, popts, presets, false)
+}
+
+// buildWith: deferLate keeps the top-level groups marked Late off the parser until AttachLate is called.
+func buildWith(t *Tree, popts flags.Options, presets bool, deferLate bool) (b *Built) {
 	d := Flatten(t)
 	b = &Built{tree: t, decl: d, log: &evlog{}, presets: presets}
 	b.opts = make([]*OptNode, len(d.Opts))
@@ -579,15 +595,26 @@ func BuildOpt(t *Tree, popts flags.Options, presets bool) (b *Built) {
 			if p == nil {
 				p = flags.NewNamedParser("app", popts)
 			}
-			grp, err := p.AddGroup(g.Desc, "", pv.Interface())
-			if err != nil {
+			g, pv := g, pv
+			attach := func() error {
+				grp, err := b.p.AddGroup(g.Desc, "", pv.Interface())
+				if err != nil {
+					return err
+				}
+				grp.Namespace = g.Ns
+				grp.EnvNamespace = g.EnvNs
+				grp.Hidden = g.Hidden
+				return nil
+			}
+			if deferLate && g.Late {
+				b.late = append(b.late, attach)
+				continue
+			}
+			b.p = p
+			if err := attach(); err != nil {
 				b.err = err
-				b.p = p
 				return b
 			}
-			grp.Namespace = g.Ns
-			grp.EnvNamespace = g.EnvNs
-			grp.Hidden = g.Hidden
 		}
 	}
 	if p == nil {
